@@ -1,12 +1,20 @@
-"""C17 — Malformed input never crashes or desynchronises the reader (no-panic clause only).
+"""C17 — Malformed input never crashes or desynchronises the reader (no-panic and progress clauses).
 
-Decides the panic-freedom *structure* of the reader: the multiset of potentially panicking
+Decides (a) the panic-freedom *structure* of the reader: the multiset of potentially panicking
 constructs (unwrap/expect, panic!/unreachable!/assert!, Index/slice operations, RefCell borrows,
 integer division) in the bodies of lexer.rs / parser.rs / read.rs reachable from the reader entry
-points equals the triaged table; any construct beyond it is a violation. Termination and
-resynchronisation after a syntax error are not decided.
+points equals the triaged table; (b) *progress*: no lexical error leaves Lexer::next_token
+without having consumed input, an error of the byte decoder is not mistaken for the end of the
+input, the end-of-input error is made only where the reader said so, and the consuming reads skip
+the invalid bytes they report — otherwise the same error is raised on every later read and the rest
+of the text is never reached ("never loops", "the next read continues ..."); (c) whether the rest
+of the offending clause is skipped after a lexical error (it is not: recorded finding).
+Termination of the parser proper and the values read are not decided.
 """
-from . import panicbudget, scopes
+import re
+
+from . import panicbudget, progress, scopes
+from .core import AnchorLost, hir_calls, pat_leaves, pat_variant, short, walk
 
 EXPLANATION = (
     "RF5 panic budget: constructs are enumerated from the MIR call/assert facts (after macro "
@@ -14,14 +22,191 @@ EXPLANATION = (
     "src/read.rs reachable in the whole-crate call graph from Parser::read_term, Lexer::next_token, "
     "Lexer::next_number_token and the read.rs entry points, keyed by (function, kind, callee) and "
     "compared with engines/rules/tables/c17_reader.json. Conservative by design: a new panicking "
-    "construct in the reader path is reported even if a human could prove it unreachable."
+    "construct in the reader path is reported even if a human could prove it unreachable. "
+    "RF3 progress: interprocedural must-pass-through over the MIR CFGs of the Lexer methods reachable "
+    "from next_token (every locally made error exit of a function that next_token reaches through "
+    "call sites without prior consumption is preceded, on every path from the function's entry, by "
+    "skip_char/read_char/consume; a callee that has consumed whenever it returns Ok covers the Ok edge "
+    "of the match on its result). RF10 on the matches that turn reader results into lexer errors."
 )
-ASSUMPTIONS = ["table dispositions were assigned by reading the constructs of the reviewed tree; a disposition can go stale if its guard is removed (stated limit)"]
+ASSUMPTIONS = ["table dispositions were assigned by reading the constructs of the reviewed tree; a disposition can go stale if its guard is removed (stated limit)",
+               "errors made inside closures (Result combinators) are attributed to the call that receives the closure"]
+
+RESYNC_FINDING_KEY = "C17:resync:lexical-error-skips-rest-of-clause"
+
+
+def _arms_on(h, method_names):
+    """Arms of the match whose scrutinee is a call of one of `method_names` on the reader."""
+    for n in walk(h["body"]):
+        if n["k"] == "Match" and n["scrut"]["k"] == "MethodCall" and n["scrut"]["name"] in method_names:
+            return n["arms"]
+    return None
+
+
+def _pat_shape(p):
+    """('Some', 'Err') for Some(Err(_)) etc.; '_' for wildcards/bindings."""
+    out = []
+    while True:
+        if p["k"] in ("PTupleStruct", "PStruct", "PPath"):
+            out.append((pat_variant(p) or "?").rsplit("::", 1)[-1])
+            subs = p.get("pats") or []
+            if len(subs) == 1:
+                p = subs[0]
+                continue
+            break
+        out.append("_")
+        break
+    return tuple(out)
 
 
 def run(ctx, R):
-    R.rule("RF5 reader panic budget against a triaged table")
+    R.rule("RF5 reader panic budget against a triaged table; RF3 no lexical error without progress; RF10 reader-result matches")
     F = ctx.facts()
     sc = scopes.reader_scope(F)
     R.floor("reader bodies in scope", len(sc), 100)
     panicbudget.check(F, R, "C17:panic-budget", "c17_reader", sc, 20)
+
+    # ---- progress ---------------------------------------------------------------------------------------------
+    entry, local_bad, edges, counts = progress.analyse(F)
+    R.floor("lexer functions reached from next_token through uncovered call sites", len(local_bad), 8)
+    R.floor("error exits classified", counts["exits"], 40)
+    R.notes.append("progress analysis: %s" % counts)
+    for p in sorted(local_bad):
+        chain = [q for q in local_bad if any(c == p for c, _ in edges.get(q, []))]
+        where = F.where(p)
+        R.ob("C17:progress:%s" % short(p).split("::")[-1], not local_bad[p],
+             "%s can return a lexical error without having consumed any input (error made at line(s) %s; reached from next_token through %s without prior consumption): "
+             "the offending character stays in the input, every later read_term/2 raises the same error and the rest of the text is never read"
+             % (short(p), ["%s: %s" % x for x in local_bad[p]], [short(c) for c in chain] or "its own entry"), where)
+        if len(R.samples) < 12:
+            R.sample({"fn": short(p), "uncovered_local_error_exits": local_bad[p], "uncovered_calls": [(short(c), ln) for c, ln in edges.get(p, [])]})
+
+    # ---- the end-of-input error is made only where the reader said "no more input" ---------------------------
+    lex = {}
+    for name in ("lookahead_char", "read_char", "next_token"):
+        c = [p for p, it in F.items.items() if p.endswith("::" + name) and it["file"] == "src/parser/lexer.rs" and it["kind"] == "AssocFn" and "Lexer" in p]
+        if len(c) != 1:
+            raise AnchorLost("Lexer::%s: %s" % (name, c))
+        lex[name] = c[0]
+    for name, meth in (("lookahead_char", "peek_char"), ("read_char", "read_char")):
+        h = F.hir(lex[name])
+        arms = _arms_on(h, (meth,))
+        if arms is None:
+            raise AnchorLost("Lexer::%s no longer matches on reader.%s()" % (name, meth))
+        some_err = [a for a in arms if any(_pat_shape(q)[:2] == ("Some", "Err") for q in pat_leaves(a["pat"]))]
+        calls_eof = lambda a: any(re.search(r"ParserError::unexpected_eof$", r or "") for _, r, _ in hir_calls(a["body"]))
+        ok = bool(some_err) and not any(calls_eof(a) for a in some_err)
+        R.ob("C17:decoder-error-is-not-eof:%s" % name, ok,
+             "Lexer::%s must have an arm for Some(Err(_)) of reader.%s() that does not answer with the end-of-file error: otherwise bytes that are not UTF-8 "
+             "end the text silently (read_term/2 then succeeds with an unbound term, forever)" % (name, meth), F.where(lex[name]))
+        if name == "lookahead_char":
+            consumes = any(any(re.search(r"CharRead::(read_char|consume)$", r or "") for _, r, _ in hir_calls(a["body"])) for a in some_err)
+            R.ob("C17:decoder-error-is-consumed:lookahead_char", consumes,
+                 "the Some(Err(_)) arm of Lexer::lookahead_char must consume the reported bytes (reader.read_char()/consume): peek_char leaves them in the buffer", F.where(lex[name]))
+    # next_token: no end-of-file error on a path where a character was successfully peeked
+    h = F.hir(lex["next_token"])
+    n_eof = 0
+    for n in walk(h["body"]):
+        if n["k"] == "Match":
+            for a in n["arms"]:
+                if any(_pat_shape(q)[:1] == ("Ok",) for q in pat_leaves(a["pat"])) and a["body"]["k"] != "Closure":
+                    for x in walk_no_closures(a["body"]):
+                        if x["k"] == "Call" and re.search(r"ParserError::unexpected_eof$", x.get("resolved") or x.get("callee") or ""):
+                            n_eof += 1
+            break
+    R.ob("C17:eof-only-at-end-of-input:next_token", n_eof == 0,
+         "Lexer::next_token makes the end-of-file error %d time(s) after a character was successfully peeked: the character is not consumed and read_term/2 "
+         "treats the error as end of file although the stream is not at its end (succeeds with an unbound term, forever)" % n_eof, F.where(lex["next_token"]))
+
+    # ---- consuming reads skip the invalid bytes they report (shared with C18) ---------------------------------
+    consuming_reads(F, R, "C17")
+
+    # ---- resynchronisation: the rest of the offending clause is skipped after a lexical error -----------------
+    rt = [p for p, it in F.items.items() if p.endswith("parser::read_tokens") and it["kind"] == "Fn"]
+    if len(rt) != 1:
+        raise AnchorLost("parser::read_tokens: %s" % rt)
+    h = F.hir(rt[0])
+    arms = None
+    for n in walk(h["body"]):
+        if n["k"] == "Match" and n["scrut"]["k"] == "MethodCall" and n["scrut"]["name"] == "next_token":
+            arms = n["arms"]
+    if arms is None:
+        raise AnchorLost("read_tokens no longer matches on lexer.next_token()")
+    err_arms = [a for a in arms if any(_pat_shape(q)[:1] == ("Err",) for q in pat_leaves(a["pat"]))]
+    if not err_arms:
+        raise AnchorLost("read_tokens: no Err arm")
+    # the arm that returns the lexical error itself (not the end-of-file conversion)
+    plain = [a for a in err_arms if not any(re.search(r"incomplete_reduction$", r or "") for _, r, _ in hir_calls(a["body"]))]
+    resync = False
+    for a in plain:
+        for _, r, _ in hir_calls(a["body"]):
+            if r and r in F.items and F.items[r]["file"].startswith("src/parser/") and _loops_and_consumes(F, r):
+                resync = True
+    R.ob(RESYNC_FINDING_KEY, resync,
+         "read_tokens returns a lexical error at once: the rest of the offending clause stays in the input and is read as the next clause(s). "
+         "`a. 'x\\qy'. c. d.` read term by term gives a, two syntax errors, a third error that swallows `c. d.`, end_of_file — c and d are lost; "
+         "the property asks for the next read to continue after the offending clause's end token", F.where(rt[0]))
+
+
+def walk_no_closures(n):
+    if isinstance(n, dict):
+        if n.get("k") == "Closure":
+            return
+        if "k" in n:
+            yield n
+        for k, v in n.items():
+            if k != "mac" and isinstance(v, (dict, list)):
+                yield from walk_no_closures(v)
+    elif isinstance(n, list):
+        for x in n:
+            yield from walk_no_closures(x)
+
+
+def _loops_and_consumes(F, fn):
+    """A resynchronising helper: loops, and consumes input inside the loop."""
+    try:
+        h = F.hir(fn)
+    except AnchorLost:
+        return False
+    for n in walk(h["body"]):
+        if n["k"] == "Loop":
+            for _, r, _ in hir_calls(n):
+                if re.search(r"::(skip_char|read_char|consume|next_token)$", r or ""):
+                    return True
+    return False
+
+
+def consuming_reads(F, R, pid):
+    """CharRead::read_char consumes the invalid bytes it reports, and open_parsing_stream (used by the consuming
+    stream builtins only) goes through it."""
+    rc = [p for p, it in F.items.items() if p.endswith("char_reader::CharRead::read_char")]
+    if len(rc) != 1:
+        raise AnchorLost("CharRead::read_char default method: %s" % rc)
+    h = F.hir(rc[0])
+    arms = _arms_on(h, ("peek_char",))
+    if arms is None:
+        raise AnchorLost("CharRead::read_char no longer matches on peek_char()")
+    some_err = [a for a in arms if any(_pat_shape(q)[:2] == ("Some", "Err") for q in pat_leaves(a["pat"]))]
+    consumes = any(any(re.search(r"CharRead::consume$", r or "") for _, r, _ in hir_calls(a["body"])) for a in some_err)
+    R.ob("%s:read_char:skips-reported-bytes" % pid, consumes,
+         "CharRead::read_char must consume the bytes of an invalid sequence when it reports them (Some(Err(_)) arm calling consume): otherwise get_char/2 and "
+         "read_term/2 raise the same error for the same bytes on every call and the characters after them are never delivered", F.where(rc[0]))
+    ok_arm = [a for a in arms if any(_pat_shape(q)[:2] == ("Some", "Ok") for q in pat_leaves(a["pat"]))]
+    R.ob("%s:read_char:consumes-decoded-char" % pid, any(any(re.search(r"CharRead::consume$", r or "") for _, r, _ in hir_calls(a["body"])) for a in ok_arm),
+         "CharRead::read_char consumes the character it returns", F.where(rc[0]))
+    ops = [p for p, it in F.items.items() if p.endswith("::open_parsing_stream") and it["kind"] == "AssocFn"]
+    if len(ops) != 1:
+        raise AnchorLost("open_parsing_stream: %s" % ops)
+    h = F.hir(ops[0])
+    arms = _arms_on(h, ("peek_char",))
+    if arms is None:
+        raise AnchorLost("open_parsing_stream no longer matches on peek_char()")
+    some_err = [a for a in arms if any(_pat_shape(q)[:2] == ("Some", "Err") for q in pat_leaves(a["pat"]))]
+    R.ob("%s:open_parsing_stream:skips-reported-bytes" % pid,
+         any(any(re.search(r"CharRead>?::read_char$|CharRead>?::consume$", r or "") for _, r, _ in hir_calls(a["body"])) for a in some_err),
+         "open_parsing_stream (the entry of get_char/2, get_code/2, get_n_chars/3) must read past the invalid bytes it reports", F.where(ops[0]))
+    # only consuming builtins may call it (a peek must not skip input)
+    callers = sorted({short(p) for p, cs in F.calls.items() for c in cs if (c.get("resolved") or c.get("callee")) == ops[0]})
+    bad = [c for c in callers if re.search(r"peek", c)]
+    R.ob("%s:open_parsing_stream:callers-are-consuming-reads" % pid, not bad and len(callers) >= 3,
+         "callers of open_parsing_stream: %s (a peek_* builtin must not go through it: it skips input on error)" % callers, F.where(ops[0]))
